@@ -13,7 +13,7 @@ use std::sync::atomic::{AtomicU64, Ordering};
 
 pub struct C20;
 
-pub const TOOLS_DIR: &str = "/verif/target/tools/release";
+
 
 #[derive(Clone, Debug, Serialize, Deserialize)]
 pub struct Line {
@@ -40,7 +40,7 @@ struct Scratch(PathBuf);
 impl Scratch {
     fn new() -> std::io::Result<Self> {
         let n = COUNTER.fetch_add(1, Ordering::Relaxed);
-        let p = Path::new("/verif/out/c20").join(format!("{}-{}", std::process::id(), n));
+        let p = crate::kit::verif_root().join("out/c20").join(format!("{}-{}", std::process::id(), n));
         std::fs::create_dir_all(&p)?;
         Ok(Scratch(p))
     }
@@ -52,7 +52,7 @@ impl Drop for Scratch {
 }
 
 fn tool(name: &str) -> PathBuf {
-    Path::new(TOOLS_DIR).join(name)
+    crate::kit::verif_root().join("target/tools/release").join(name)
 }
 
 fn f32_text(s: &mut Src) -> String {
